@@ -59,7 +59,10 @@ func (v *Voting[T, _]) AddVote(sender common.Address, candidate T) error {
 
 // outcomeIndex checks if one of the candidate indices has more than numRequiredVotes.
 func (v *Voting[_, _]) outcomeIndex(numRequiredVotes int) (int, bool) {
-	numVotes := make(map[int]int)
+	// Count per candidate index in a slice and scan it in index order, so that
+	// the outcome does not depend on map iteration order if more than one
+	// candidate has reached the required number of votes.
+	numVotes := make([]int, len(v.Candidates))
 
 	for _, vote := range v.Votes {
 		numVotes[vote]++
